@@ -128,6 +128,26 @@ fn main() {
             });
             std::process::exit(code);
         }
+        "probe-wide" => {
+            // debug: distribution of generated wide programs
+            use proptest::strategy::{Strategy, ValueTree};
+            use proptest::test_runner::{Config, RngAlgorithm, TestRng, TestRunner};
+            let n: usize = args[2].parse().unwrap();
+            let mut runner = TestRunner::new_with_rng(Config::default(), TestRng::from_seed(RngAlgorithm::ChaCha, &[7u8; 32]));
+            let strat = (bf::wide_prog(false), bf::input_bytes());
+            for _ in 0..n {
+                let (w, input) = strat.new_tree(&mut runner).unwrap().current();
+                let code = w.render();
+                let r = refmodel::run(&code, &input, 8, 3_000_000);
+                let mut temps = vec![];
+                for l in 0..4 {
+                    use hpbf::exec::Executor;
+                    let e = hpbf::exec::BaseJitCompiler::<u8>::create(&code, l).unwrap();
+                    temps.push(e.bytecode().temps);
+                }
+                println!("n={} nupd_sel={} looped={} len={} fate={:?} steps={} temps={:?}", w.n, w.nupd_sel, w.looped, code.len(), r.fate, r.steps, temps);
+            }
+        }
         "mkcase" => {
             // hv mkcase <ID> <program> <input csv> <bits> [sel0 sel1 sel2 sel3 sel4]
             child::init();
